@@ -197,6 +197,6 @@ def check(ctx: Ctx) -> None:
                 ctx.ob("C20.verdict", f"{pkey}::foreign", False, f"evaluate_{key}: a fulfilled verdict depends on {foreign} - something other than the instant / the offset", file=FILE, function=fn.qualname)
         ctx.ob("C20.verdict", f"{key}:reachable", fulfilled_paths >= 1, f"evaluate_{key} has no path on which the constraint is fulfilled for the documented condition", file=FILE, function=fn.qualname)
         ctx.sample({"constraint": key, "paths": len(paths), "example": [{"facts": {k: v for k, v in f.items()}, "outcome": list(o)} for f, o in paths[:2]]})
-    check_path(ctx, "C20.state", [f"{FCE}.evaluate_{k}" for k in ("931", "932", "933", "934", "935")], "a verdict must depend on the entered input only")
+    ctx.soft(lambda: check_path(ctx, "C20.state", [f"{FCE}.evaluate_{k}" for k in ("931", "932", "933", "934", "935")], "a verdict must depend on the entered input only"))
     ctx.assume("L9: fromisoformat raises only ValueError for str input; astimezone raises OverflowError outside years 1..9999")
     ctx.assume("pytz Europe/Berlin implements CET/CEST by the EU rule (tz data, not decided here)")
